@@ -184,8 +184,19 @@ def r_verbosity(ctx, prog):
     R = 'R-VERBOSITY'
     ctx.rule(R, 'the global trace level only controls regions consisting of print calls', floor=1)
     n = 0
+    eff = effects(prog)
+
+    def pure_call(i):
+        # a library routine that only prints (statistics dumps of the OF_DEBUG build): writes nothing but its own locals
+        g = prog.callee_fn(i)
+        if g is None:
+            return False
+        e = eff.of(g)
+        w = [x for x in e['w'] if x[0] not in ('local', 'viaLocal')]
+        return not w and not e['indirect'] and all(x in PURE_EXTERNAL for x in e['ext'])
+
     for f in prog.all_functions:
-        ok, bad, nb = verbosity_regions_pure(f)
+        ok, bad, nb = verbosity_regions_pure(f, pure_call=pure_call)
         if nb == 0 and ok:
             continue
         n += 1
